@@ -136,6 +136,21 @@ def apply_op(ctx, w, op):
     if compare(ctx, w, m2, route) and op.get("replace"):
       w.model = m2
       ctx.probe("continued_on_restarted_model")
+  elif k == "TRAIN_CALLS":
+    # forward passes with training=True: moves the state that is not touched
+    # by set_weights (QAdaptiveActivation EMA range and step, BN statistics,
+    # folded layers' step clock)
+    g = np.random.Generator(np.random.PCG64(int(op.get("seed", 0))))
+    for _ in range(int(op.get("n", 2))):
+      xb = g.standard_normal((4,) + M.INPUTS[w.mspec["input"]]).astype(
+          np.float32) * float(op.get("mag", 2.0))
+      ok, _ = guard(ctx, "training-call", lambda: w.model(tf.constant(xb),
+                                                         training=True))
+      if not ok:
+        return
+    ctx.fault("training_calls")
+    set_phase(0)
+    w.refresh()
   elif k == "COMPILE":
     import tf_keras as keras
     w.model.compile(optimizer=keras.optimizers.SGD(0.01), loss="mse")
@@ -319,11 +334,12 @@ ROUTE_W = [("json", 3), ("clone", 3), ("h5_path", 1.5), ("h5_fileobj", 3),
 
 
 def generate(rng):
-  world = M.gen_model(rng)
+  world = M.gen_model(rng, allow=["adaptive"])
   ops = []
   n = rng.randrange(2, 7)
   for _ in range(n):
     k = rng.wpick([("RESTART", 6), ("PERTURB", 2), ("READONLY", 1.5),
+                   ("TRAIN_CALLS", 1.2),
                    ("SAVE_FAULT", 2.5), ("EXPORT", 0.8), ("SCHED", 1.0),
                    ("COMPILE", 0.5)])
     op = {"k": k}
@@ -340,6 +356,10 @@ def generate(rng):
       op["kind"] = rng.pick(["enospc", "eio", "short", "crash"])
       op["at"] = rng.randrange(0, 400) if rng.chance(0.8) else rng.pick([0, -1])
       op["keep"] = rng.chance(0.5)
+    elif k == "TRAIN_CALLS":
+      op["seed"] = rng.subseed()
+      op["n"] = rng.randrange(1, 4)
+      op["mag"] = rng.pick([0.5, 2.0, 6.0])
     elif k == "SCHED":
       op["steps"] = rng.randrange(1, 5)
       op["stop_mid"] = rng.chance(0.6)
@@ -382,6 +402,10 @@ def directed():
       ("vec", {"t": "QDense", "units": 3, "use_bias": True, "kq": {
           "cls": "quantized_bits", "kw": {"bits": 4, "alpha": "auto",
                                           "scale_axis": 0}}}),
+      ("vec", {"t": "QAdaptiveActivation", "act": "quantized_relu", "bits": 6,
+               "per_channel": False, "qdelay": 1}),
+      ("vec", {"t": "QAdaptiveActivation", "act": "quantized_bits", "bits": 6,
+               "per_channel": True, "qdelay": 2}),
       ("vec", {"t": "QBatchNormalization", "center": True, "scale": True,
                "defaults": True}),
       ("vec", {"t": "QBatchNormalization", "center": False, "scale": True,
@@ -426,6 +450,11 @@ def directed():
     for r in M.ROUTES:
       ops.append({"k": "RESTART", "route": r})
     ops.append({"k": "PERTURB", "seed": 3, "scale": 2.0})
+    if l["t"] in ("QAdaptiveActivation", "QBatchNormalization",
+                  "QConv2DBatchnorm", "QDepthwiseConv2DBatchnorm"):
+      ops.append({"k": "TRAIN_CALLS", "seed": 5, "n": 3, "mag": 3.0})
+      for r in M.ROUTES:
+        ops.append({"k": "RESTART", "route": r})
     ops.append({"k": "RESTART", "route": "clone", "replace": True})
     ops.append({"k": "RESTART", "route": "h5_fileobj"})
     out.append({"label": "directed:%s:%s" % (l["t"], json.dumps(
